@@ -11,6 +11,7 @@ open Driver ScionTime.Timemath ScionTime.Measurements
   tm.ftm [d,...]             -> the same
   ms.median [o,t,e,...] post=[o,t,e,...]  -> ok <offset> <timestamp ns> <err 0|1> [post]
   ms.ftm    [o,t,e,...] post=[o,t,e,...]  -> the same
+  ms.rounds n round;round;...  -> ok <ftm>:[slice after the round]:<0|1> ... (see harness/cmd/c02/rounds.go)
      (o = offset int64, t = timestamp in ns since the Unix epoch (unbounded), e = 1 iff Error != nil;
       post = the slice the implementation left behind; answered `bad-sort` if it is not an
       offset-sorted permutation of the input)
@@ -54,6 +55,38 @@ def fmtRes (post : List M) : Res → String
   | .badSort => "bad-sort"
   | .ok m => s!"ok {m.offset.toInt} {m.ts} {if m.err then 1 else 0} {fmtMList post}"
 
+/-! ### ms.rounds: `MeasureClockOffsets` + `FaultTolerantMidpoint` round after round on one slice
+(the call site `core/sync.measureOffsetToRefClks`). `collectMeasurements` stores the timely
+successes of a round at the front of the caller's slice, leaves the rest as the previous round's
+`FaultTolerantMidpoint` sorted it, and discards whatever arrives after the deadline; the slice starts
+as `n` zero measurements. Offsets only (the order in which timely results arrive does not matter
+once the slice is sorted). -/
+inductive ClkTok where
+  | ok (v : Int64) | err | lateOk (v : Int64) | lateErr
+
+def clkTok? (s : String) : Option ClkTok :=
+  if s = "e" then some .err
+  else if s = "l" then some .lateErr
+  else if s.startsWith "v" then (i64? (s.drop 1).toString).map .ok
+  else if s.startsWith "L" then (i64? (s.drop 1).toString).map .lateOk
+  else none
+
+def roundsParse? (n : Nat) (s : String) : Option (List (List ClkTok)) :=
+  (s.splitOn ";").mapM fun rd =>
+    let toks := rd.splitOn ","
+    if toks.length ≠ n then none else toks.mapM clkTok?
+
+def roundsRun (n : Nat) (rounds : List (List ClkTok)) : String :=
+  let rec go (slice : List Int64) : List (List ClkTok) → List String
+    | [] => []
+    | rd :: rest =>
+      let timely := rd.filterMap fun | .ok v => some v | _ => none
+      let cur := timely ++ slice.drop timely.length
+      match ftm cur with
+      | some (v, post) => s!"{v.toInt}:{fmt64List post}:0" :: go post rest
+      | none => ["panic"]
+  "ok " ++ " ".intercalate (go (List.replicate n 0) rounds)
+
 def step (_ : Unit) (toks : List String) : Unit × String :=
   match toks with
   | ["tm.sgn", d] =>
@@ -75,6 +108,14 @@ def step (_ : Unit) (toks : List String) : Unit × String :=
   | ["tm.ftm", l] =>
     match i64List? l with
     | some l => ((), fmtCall (ftm l))
+    | none => ((), "bad-op")
+  | ["ms.rounds", n, rs] =>
+    match n.toNat? with
+    | some n =>
+      if n < 1 ∨ n > 64 then ((), "bad-op") else
+      match roundsParse? n rs with
+      | some rounds => ((), roundsRun n rounds)
+      | none => ((), "bad-op")
     | none => ((), "bad-op")
   | [op, l, p] =>
     if ¬ p.startsWith "post=" then ((), "bad-op") else
